@@ -303,8 +303,19 @@ def main():
         path = write_replay(pid, seed, nrep[0], payload)
         violations.append(f"VIOLATION property={pid} replay={path}" + (" no-failing-input-found" if nofail else ""))
 
+    # 0. optional pre-step (translators that regenerate coq/Gen/*.v from /repo's working tree)
+    pre_problem = None
+    for cmd in cfg.get("pre_cmds", []):
+        with Lock("coq.lock"):
+            rc, out = sh(cmd, cwd=ROOT, env=dict(GOENV, VERIF_REPO=REPO, VERIF_ROOT=ROOT), timeout=1200)
+        if rc:
+            pre_problem = f"pre-step {' '.join(cmd)} failed: {out[-1500:]}"
+            break
+
     # 1. proofs
     pr = prove(pid, cfg, tier)
+    if pre_problem:
+        pr["broken"].append(pre_problem)
 
     # 2. harness
     rc, out, exe = build_harness(pid, cfg)
